@@ -215,6 +215,35 @@ type LTE struct{}
 
 func (LTE) MarshalText() ([]byte, error) { return nil, fmt.Errorf("LTE fails") }
 
+// LTK: comparable TextMarshaler whose method fails on demand (keys of interface-kinded map key types)
+type LTK struct {
+	S   string
+	Bad bool
+}
+
+func (l LTK) MarshalText() ([]byte, error) {
+	if l.Bad {
+		return nil, fmt.Errorf("LTK fails")
+	}
+	return []byte(l.S), nil
+}
+
+// TMKey: an interface KIND that implements encoding.TextMarshaler, as a map key type
+type TMKey interface {
+	MarshalText() ([]byte, error)
+}
+
+// embedded-pointer fixtures: a pointer-receiver leaf reached through an embedded pointer is addressable
+// even when the outer value is not (DESIGN 8 #14, first half)
+type EmbMPInner struct {
+	M MP `json:"m"`
+	T TP `json:"t"`
+}
+type EmbMPOuter struct {
+	*EmbMPInner
+	X int `json:"x"`
+}
+
 type deepRec struct {
 	Next *deepRec `json:"n,omitempty"`
 }
@@ -359,7 +388,13 @@ func init() {
 	simple := func(v interface{}, bits uint64) string {
 		sb, serr := apiOf(bits).Marshal(v)
 		rb, rerr := stdEncode(v, bits)
-		out := "sonic=" + encErrKind(serr) + "\tref=" + encErrKind(rerr)
+		eo := 0
+		for i, n := range encOptNames {
+			if bits&cfgBit(n) != 0 {
+				eo |= 1 << uint(i)
+			}
+		}
+		out := "sonic=" + encErrKind(serr) + "\tref=" + encErrKind(rerr) + "\teo=" + strconv.Itoa(eo)
 		if serr == nil {
 			out += "\tvalid=" + b01(json.Valid(sb))
 			if len(sb) <= 4096 {
@@ -399,6 +434,32 @@ func init() {
 			v = struct{ X LTE }{}
 		case "LTE.key":
 			v = map[LTE]int{{}: 1}
+		case "emb.mp":
+			v = EmbMPOuter{&EmbMPInner{MP{3}, TP{4}}, 1}
+		case "emb.mp.ptr":
+			v = &EmbMPOuter{&EmbMPInner{MP{3}, TP{4}}, 1}
+		case "emb.mp.nil":
+			v = EmbMPOuter{nil, 1}
+		case "emb.mp.slice":
+			v = []EmbMPOuter{{&EmbMPInner{MP{5}, TP{6}}, 2}}
+		case "emb.mp.any":
+			v = []interface{}{EmbMPOuter{&EmbMPInner{MP{7}, TP{8}}, 3}}
+		case "ikey.bad":
+			v = map[TMKey]int{LTK{"x", true}: 1}
+		case "ikey.bad.mixed":
+			v = map[TMKey]int{LTK{"a", false}: 1, LTK{"b", true}: 2, LTK{"c", false}: 3, TV{4}: 4}
+		case "ikey.bad.field":
+			v = struct {
+				M map[TMKey]string `json:"m"`
+			}{map[TMKey]string{LTE{}: "v"}}
+		case "ikey.bad.ptr":
+			v = &map[TMKey][]int{LTK{"", true}: nil}
+		case "ikey.ok":
+			v = map[TMKey]int{LTK{"b", false}: 1, LTK{"a<", false}: 2, TV{3}: 3, LT{"\u2028"}: 4}
+		case "ikey.ok.one":
+			v = []interface{}{map[TMKey]bool{TV{7}: true}, map[TMKey]bool{}}
+		case "ikey.nil":
+			v = map[TMKey]int(nil)
 		default:
 			panic("marfail: " + a[1])
 		}
